@@ -473,5 +473,20 @@ func runC19(r *Rng, tier string, n int) {
 		}
 		Emit("pairraw", []string{Hs(a), Hs(b)}, c19PairRaw(a, b))
 	}
+	// (7) IsFqdn is about octets: a multi-octet UTF-8 character, an invalid UTF-8 octet or an ASCII
+	// letter before k backslashes and the final dot: fully qualified exactly when k is even
+	for _, pre := range []string{"", "a", "\xc3\xa9", "\xff", "\xe6\x97\xa5", "\xf0\x9f\x98\x80", "x.\xc3\xa9", "\\\xc3\xa9"} {
+		for k := 0; k <= 5; k++ {
+			s := pre + strings.Repeat("\\", k) + "."
+			c19checked++
+			want := k%2 == 0
+			if pre == "\\\xc3\xa9" { // the backslash before the character escapes its first octet only
+				want = k%2 == 0
+			}
+			if got := dns.IsFqdn(s); got != want {
+				Viol("C19/IsFqdn/multi-octet-character-before-backslashes", "IsFqdn("+Hs(s)+") = "+Btoa(got)+": the final dot is preceded by "+Itoa(k)+" backslashes", map[string]string{"name_hex": Hs(s)})
+			}
+		}
+	}
 	Stat(map[string]int{"names_checked": c19checked, "pairs_checked": c19pairs, "enumerated_label_lists": cnt, "enumerated_strings": sc, "max_octets": maxOct})
 }
